@@ -12,7 +12,8 @@ CHECKS = {
     "C06": {"runs": _runs, "level": "model_checking", "deadline": {"quick": 270, "thorough": 2500},
             "assumptions": [
                 "states are merged on a 128-bit hash of the ascii_dump text (hash compaction) within one (initial configuration, first operation) shard",
-                "a solve-like call is declared divergent after 0.25 s CPU in a sandbox (10x when re-run alone); terminating calls of this size take well under 1 ms",
+                "a solve-like call on data with integer variables and an unbounded relaxation runs under PPL's own cancellation hook (abandon_expensive_computations) with a CPU budget of 0.02 s, 0.5 s when re-run before it is reported as a hang; terminating calls of this size take well under 1 ms",
+                "'the same final data' for the fresh problem = the set of rows (sorted, without repetitions), integer set, objective and mode; it is solved under each of the 3 pricings",
                 "R.MILP (ref/milp.hh): vertex/ray window argument for integer feasibility and optimum; self-tested against plain enumeration at start-up",
             ]},
 }
